@@ -4,6 +4,7 @@ package engine
 import (
 	"errors"
 	"fmt"
+	"math"
 	"reflect"
 
 	"github.com/kaptinlin/gozod/core"
@@ -971,10 +972,67 @@ func validatePointer[T any](
 		if np, changed := validatePointerWithOverwrite(ptr, checks, ctx); changed {
 			return np, nil
 		}
+		*ptr = v
+		return ptr, nil
 	}
 
-	*ptr = v
-	return ptr, nil
+	// Without an overwrite the caller's data is only read. A validator that hands back what
+	// it was given (primitives, slices, records) leaves nothing to store: the caller's own
+	// pointer is the result.
+	if sameValue(reflect.ValueOf(&v).Elem(), reflect.ValueOf(ptr).Elem()) {
+		return ptr, nil
+	}
+	// A validator that built a new value (an object's result map without the unknown keys, a
+	// record with canonical keys, a struct with field defaults) gets a pointer of its own; the
+	// variable the caller's pointer refers to keeps the value it had.
+	return &v, nil
+}
+
+// sameValue reports whether a and b, two values of one type, are the same bits: scalars
+// equal, maps, slices, pointers, channels and funcs referring to the same storage (slices
+// with the same length and capacity), structs, arrays and interface values member by member.
+func sameValue(a, b reflect.Value) bool {
+	switch a.Kind() {
+	case reflect.Bool:
+		return a.Bool() == b.Bool()
+	case reflect.Int, reflect.Int8, reflect.Int16, reflect.Int32, reflect.Int64:
+		return a.Int() == b.Int()
+	case reflect.Uint, reflect.Uint8, reflect.Uint16, reflect.Uint32, reflect.Uint64, reflect.Uintptr:
+		return a.Uint() == b.Uint()
+	case reflect.Float32, reflect.Float64:
+		return math.Float64bits(a.Float()) == math.Float64bits(b.Float())
+	case reflect.Complex64, reflect.Complex128:
+		x, y := a.Complex(), b.Complex()
+		return math.Float64bits(real(x)) == math.Float64bits(real(y)) &&
+			math.Float64bits(imag(x)) == math.Float64bits(imag(y))
+	case reflect.String:
+		return a.String() == b.String()
+	case reflect.Map, reflect.Pointer, reflect.Chan, reflect.Func, reflect.UnsafePointer:
+		return a.Pointer() == b.Pointer()
+	case reflect.Slice:
+		return a.Pointer() == b.Pointer() && a.Len() == b.Len() && a.Cap() == b.Cap()
+	case reflect.Interface:
+		if a.IsNil() || b.IsNil() {
+			return a.IsNil() && b.IsNil()
+		}
+		return a.Elem().Type() == b.Elem().Type() && sameValue(a.Elem(), b.Elem())
+	case reflect.Struct:
+		for i := range a.NumField() {
+			if !sameValue(a.Field(i), b.Field(i)) {
+				return false
+			}
+		}
+		return true
+	case reflect.Array:
+		for i := range a.Len() {
+			if !sameValue(a.Index(i), b.Index(i)) {
+				return false
+			}
+		}
+		return true
+	default:
+		return false
+	}
 }
 
 // ----------------------------------------------------------------------------
